@@ -13,7 +13,7 @@ EXPLANATION = (
     "extended with exactly <T::BatchSystemData as SystemData>::reads(), the second fetch_all_writes(inner) extended with exactly "
     "...::writes() (two separate locals, so nothing is crossed); (ALL) fetch_all_reads / fetch_all_writes return a full traversal "
     "(iter, flatten twice, cloned, collect; no partial adaptor) of the field that accumulates declared reads / writes in insert; "
-    "(SAME) the builder whose tables were read is the one whose build() result goes to BatchControllerSystem::create, and the reads "
+    "(ACCUM) the accumulated tables only ever grow - their shape changes only in add_stage/add_group/insert; (SAME) the builder whose tables were read is the one whose build() result goes to BatchControllerSystem::create, and the reads "
     "happen before build consumes it; (WIRE) BatchAccessor::new/reads/writes, create and accessor() wire the same-named fields; "
     "(NOFETCH) BatchUncheckedWorld borrows nothing itself; (PLAN) MultiDispatcher moves its plan data into plan before the first "
     "inner dispatch; nested batches are ordinary systems of the inner builder, registered through self.add, so C01's SLOT rule "
@@ -134,3 +134,5 @@ def run(ctx, report):
         report.guard("C07.WIRE", wire, ctx, report, facts, config)
         report.guard("C07.PLAN", c04.batch_run, ctx, report, facts, config, "C07.PLAN")
         report.guard("C07.SLOT", S.slot, ctx, report, "C07.SLOT", facts, config)
+        # the tables fetch_all_* read only ever grow (member level: `extend` in insert only)
+        report.guard("C07.ACCUM", S.lockstep, ctx, report, "C07.ACCUM", facts, config)
